@@ -265,6 +265,10 @@ pub fn run_child(cwd: &Path, c: &Child) -> ChildResult {
         cmd.env("FMLSIM_SEED", s.seed.to_string());
         cmd.env("FMLSIM_TRACE", ".fmlsim-trace");
         cmd.env("FMLSIM_CPU", CPU_LIMIT_S.to_string());
+        if c.program.is_some() {
+            // a wrapper (bash) runs the binary: only the binary is the system under test; the shell sees an undisturbed world
+            cmd.env("FMLSIM_ONLY", "/fml");
+        }
         if !s.plan.is_empty() {
             cmd.env("FMLSIM_PLAN", &s.plan);
         }
